@@ -9,5 +9,6 @@ import (
 	_ "verifharness/internal/c05"
 	_ "verifharness/internal/c06"
 	_ "verifharness/internal/c07"
+	_ "verifharness/internal/c11"
 	_ "verifharness/internal/c17"
 )
